@@ -36,6 +36,8 @@ type wireCase struct {
 
 type wireStats struct {
 	Cases, Drift, Panics, Slow, Big int
+	Skipped                         int // inputs not run after three hangs
+	hangs                           int
 	Inputs                          int
 	Accepts                         int
 	Problems                        []map[string]any
@@ -101,6 +103,12 @@ func wireProof(entry []byte, version uint16) bool {
 }
 
 func (s *wireStats) feed(name string, f func([]byte) bool, b []byte, note map[string]any) (accepted bool) {
+	if s.hangs >= 3 {
+		// three inputs did not return: every further one would cost the deadline again and leave another goroutine spinning;
+		// the hangs on record are the verdict, the rest of the sweep is skipped
+		s.Skipped++
+		return false
+	}
 	s.Inputs++
 	s.ByEntry[name]++
 	var m0, m1 runtime.MemStats
@@ -120,6 +128,7 @@ func (s *wireStats) feed(name string, f func([]byte) bool, b []byte, note map[st
 		}
 	case <-time.After(5 * time.Second):
 		s.Slow++
+		s.hangs++
 		if len(s.Problems) < 10 {
 			s.Problems = append(s.Problems, map[string]any{"kind": "hang", "entry": name, "bytes": fmt.Sprintf("%x", b), "case": note})
 		}
